@@ -150,11 +150,7 @@ def run(tier):
     common.import_pregex()
     import pregex.core.classes as cl, pregex.core.tokens as tk
     base = cl.Any.__mro__[1]
-    run.functions = common.src_fingerprint([base.__init__, base._Class__process, base._Class__chars_to_ranges,
-                                            base._Class__verbose_to_shorthand, base._Class__extract_classes,
-                                            base._Class__separate_classes, base._Class__modify_classes, base._Class__split_range,
-                                            cl.AnyFrom.__init__, cl.AnyButFrom.__init__, cl.AnyBetween.__init__, cl.AnyButBetween.__init__,
-                                            tk.Backslash.__init__, tk.Dollar.__init__])
+    run.functions = common.src_fingerprint(common.resolve([(base, "__init__"), (base, "_Class__process"), (base, "_Class__chars_to_ranges"), (base, "_Class__verbose_to_shorthand"), (base, "_Class__extract_classes"), (base, "_Class__separate_classes"), (base, "_Class__modify_classes"), (base, "_Class__split_range"), (cl.AnyFrom, "__init__"), (cl.AnyButFrom, "__init__"), (cl.AnyBetween, "__init__"), (cl.AnyButBetween, "__init__"), (tk.Backslash, "__init__"), (tk.Dollar, "__init__")]))
     ex = family(tier)
     seed_list = list(range(8)) if tier == "quick" else list(range(32))
     n = 120
